@@ -238,6 +238,10 @@ def contracts(env):
 
 # ---------------------------------------------------------------- facts + bounded tokenizer
 def extra(rep, tier, seed, budget):
+    from specs import shared_facts as _sf
+    _sf.add_facts(rep, _sf.option_defaults() + _sf.github_logins_normalised(), 'option registry defaults, login normalisation')
+    from bounded import author_options as _ao
+    _ao.integrate(rep)
     from pyvc.cli import write_replay
     import copy
     import bert_e.workflow.gitwaterflow as gwf
